@@ -782,7 +782,7 @@ def write_evidence(ctx, P):
                          'translator/consts.py + translator/bittools.py (regenerate Consts.v / BitToolsGen.v from the headers)',
                          'correspondence harness: harness/driver.cpp, harness/*.py, g++ 12 / clang 14, sanitizers',
                          'hand transcription of the C++ into coq/*.v (validated by the correspondence on every run)'],
-        'theorems': pr['detail'], 'forbidden_constructs': pr['forbidden'],
+        'theorems': pr['detail'], 'forbidden_constructs': pr['forbidden'], 'coqchk': pr.get('coqchk'),
         'configs': sorted(ctx.configs_used), 'input_distribution': ctx.dist,
         'broken_ties': [b['what'] + (' [%s]' % b['case'] if b.get('case') else '') for b in ctx.broken_ties[:20]],
         'builder_model_drift_cases': ctx.drift,
